@@ -86,26 +86,30 @@ fn map_each_flat<const N: usize, const OWNED: bool>() {
 }
 
 #[kani::proof]
-#[kani::unwind(4)]
+#[kani::stub(std::mem::drop, crate::lhs_types::verif_kani::common::mem_drop__releases_nothing_observable)]
+#[kani::unwind(2)]
 fn map_each_flat__array_order_n0() {
     map_each_flat::<0, false>()
 }
 
 #[kani::proof]
-#[kani::unwind(6)]
+#[kani::stub(std::mem::drop, crate::lhs_types::verif_kani::common::mem_drop__releases_nothing_observable)]
+#[kani::unwind(3)]
 fn map_each_flat__array_order_n2() {
     map_each_flat::<2, false>()
 }
 
 #[kani::proof]
-#[kani::unwind(6)]
+#[kani::stub(std::mem::drop, crate::lhs_types::verif_kani::common::mem_drop__releases_nothing_observable)]
+#[kani::unwind(3)]
 fn map_each_flat__array_order_owned_n2() {
     map_each_flat::<2, true>()
 }
 
 /// `[*][*]` over {[a, b], [], [c]}: a, b, c - row-major, empty rows contribute nothing.
 #[kani::proof]
-#[kani::unwind(7)]
+#[kani::stub(std::mem::drop, crate::lhs_types::verif_kani::common::mem_drop__releases_nothing_observable)]
+#[kani::unwind(4)]
 fn map_each_nested__row_major() {
     let (a, b, c): (i64, i64, i64) = kani::any();
     let val = rows3(int_array(&[a, b]), int_array(&[]), int_array(&[c]));
@@ -124,7 +128,8 @@ fn map_each_nested__row_major() {
 /// `[*][j]` over the ragged {[a], [b, c]} with symbolic j: rows WITHOUT element
 /// j are skipped, later rows still contribute ([*] in the middle of a path).
 #[kani::proof]
-#[kani::unwind(7)]
+#[kani::stub(std::mem::drop, crate::lhs_types::verif_kani::common::mem_drop__releases_nothing_observable)]
+#[kani::unwind(3)]
 fn map_each_then_index__ragged_rows_are_skipped() {
     let (a, b, c): (i64, i64, i64) = kani::any();
     let val = rows2(int_array(&[a]), int_array(&[b, c]));
@@ -149,7 +154,8 @@ fn map_each_then_index__ragged_rows_are_skipped() {
 /// `[i][*]` over {[a, b], [c]} with symbolic i: the elements of row i; an
 /// out-of-range i gives an empty result.
 #[kani::proof]
-#[kani::unwind(7)]
+#[kani::stub(std::mem::drop, crate::lhs_types::verif_kani::common::mem_drop__releases_nothing_observable)]
+#[kani::unwind(3)]
 fn index_then_map_each__row_elements_or_empty() {
     let (a, b, c): (i64, i64, i64) = kani::any();
     let val = rows2(int_array(&[a, b]), int_array(&[c]));
@@ -173,7 +179,8 @@ fn index_then_map_each__row_elements_or_empty() {
 /// `reset` starts a fresh traversal: after a partial traversal of one value the
 /// iterator yields exactly the elements of the next value.
 #[kani::proof]
-#[kani::unwind(6)]
+#[kani::stub(std::mem::drop, crate::lhs_types::verif_kani::common::mem_drop__releases_nothing_observable)]
+#[kani::unwind(3)]
 fn map_each_reset__fresh_traversal() {
     let (a, b, c): (i64, i64, i64) = kani::any();
     let v1 = int_array(&[a, b]);
